@@ -107,6 +107,15 @@ package encoder
 //@   modifies dst[_]
 //@   ensures base(result) == base(dst) || fresh(result)
 //@   ensures base(result) != 0
+//@   ensures len(dst) == 0 ==> txt(result) == alg.htmlSpec(txt(src))
+
+// The post-passes (C18, C03): HTML escaping iff EscapeHTML, then - on the escaped
+// text - replacement of invalid UTF-8 iff ValidateString and the text is invalid.
+//@ pure func finHtml(b text, opts Options) text = ite(opts & EscapeHTML != 0, alg.htmlSpec(b), b)
+//@ pure func finOut(b text, opts Options) text = ite(opts & ValidateString != 0 && !utf8.validSpec(finHtml(b, opts)), utf8.correctSpec(finHtml(b, opts), txt("\\ufffd")), finHtml(b, opts))
+
+//@ func encodeFinish props C18,C03
+//@   ensures txt(result) == finOut(txt(buf), opts)
 
 // encodeFinishWithPool: the post-passes run in the documented order and leave
 // in *buf a buffer the caller still owns; the replaced buffer goes to the pool.
@@ -115,6 +124,7 @@ package encoder
 //@   modifies *buf, (*buf)[_], $pooled
 //@   ensures !$pooled[base(*buf)] && sync.poolWF()
 //@   ensures base(*buf) == old(base(*buf)) || fresh(*buf)
+//@   ensures[C18,C03] txt(*buf) == finOut(old(txt(*buf)), opts)
 
 //@ func Encode props C06
 //@   requires sync.poolWF() && option.DefaultEncoderBufferSize <= 1099511627776
